@@ -95,11 +95,25 @@ func (s dl) HasInsertBefore() bool { return true }
 
 func init() {
 	registry["C19"] = func() []*seqmc.Spec {
-		cap, depth := 4, 6
+		cap, depth := 6, 12
 		if thorough {
-			cap, depth = 5, 8
+			cap, depth = 9, 20
+		}
+		dcap := 4
+		if thorough {
+			dcap = 6
 		}
 		return []*seqmc.Spec{
+			// second family: values may repeat (alphabet {1,2,3}, no renaming); only the operations that
+			// take values rather than node handles, so that "first occurrence" semantics of Replace/Find is exercised
+			{Property: "C19", Component: "SList(duplicates)", KeyName: "SList", Inits: []string{"1", "2"}, New: func(in string) seqmc.Sys {
+				v := int(in[0] - '0')
+				return &listSys{name: "SList", l: sl{list.Init(v)}, model: []int{v}, cap: dcap, dups: true}
+			}},
+			{Property: "C19", Component: "DList(duplicates)", KeyName: "DList", Inits: []string{"1", "2"}, New: func(in string) seqmc.Sys {
+				v := int(in[0] - '0')
+				return &listSys{name: "DList", l: dl{list.InitDList(v)}, model: []int{v}, cap: dcap, dups: true}
+			}},
 			{Property: "C19", Component: "SList", Inits: []string{"single"}, MaxDepth: depth, New: func(string) seqmc.Sys {
 				return &listSys{name: "SList", l: sl{list.Init(1)}, model: []int{1}, next: 2, cap: cap}
 			}},
@@ -116,9 +130,24 @@ type listSys struct {
 	model []int
 	next  int // next fresh value
 	cap   int
+	dups  bool
 }
 
 func (s *listSys) Ops() []seqmc.Op {
+	if s.dups {
+		ops := []seqmc.Op{op("Shift"), op("Pop")}
+		for v := 1; v <= 3; v++ {
+			if len(s.model) < s.cap && v <= 2 {
+				ops = append(ops, op("UnshiftV", v), op("AppendV", v))
+			}
+			for w := 1; w <= 3; w++ {
+				if v != w {
+					ops = append(ops, op("ReplaceV", v, w))
+				}
+			}
+		}
+		return ops
+	}
 	ops := []seqmc.Op{op("Shift"), op("Pop"), op("ReplaceAbsent")}
 	grow := len(s.model) < s.cap
 	if grow {
@@ -172,6 +201,28 @@ func insertAt(m []int, i, v int) []int {
 func (s *listSys) Apply(o seqmc.Op, c *seqmc.Ctx) {
 	n := s.name + "."
 	switch o.N {
+	case "UnshiftV":
+		s.l.Unshift(o.I[0])
+		s.model = insertAt(s.model, 0, o.I[0])
+	case "AppendV":
+		s.l.Append(o.I[0])
+		s.model = append(s.model[:len(s.model):len(s.model)], o.I[0])
+	case "ReplaceV":
+		err := s.l.Replace(o.I[0], o.I[1])
+		at := -1
+		for i, m := range s.model {
+			if m == o.I[0] {
+				at = i
+				break
+			}
+		}
+		if (at < 0) != (err != nil) {
+			c.Soft(n+"Replace/error-iff-absent", "Replace(%d,%d) on %v returned %v", o.I[0], o.I[1], s.model, err)
+		}
+		if at >= 0 {
+			s.model = append([]int{}, s.model...)
+			s.model[at] = o.I[1]
+		}
 	case "Unshift":
 		v := s.fresh()
 		s.l.Unshift(v)
@@ -269,6 +320,18 @@ func (s *listSys) Observe(c *seqmc.Ctx) {
 	if l, ok := s.l.Last(); ok && l != s.model[len(s.model)-1] {
 		c.Fail(n+"Last/wrong", "Last = %d, want %d (sequence %v)", l, s.model[len(s.model)-1], s.model)
 	}
+	if s.dups {
+		for v := 1; v <= 3; v++ {
+			held := false
+			for _, m := range s.model {
+				held = held || m == v
+			}
+			if gv, nn, ok := s.l.Find(v); ok != held || nn != held || (held && gv != v) {
+				c.Fail(n+"Find/agrees-with-sequence", "Find(%d) = (node %t value %d, %t) in %v", v, nn, gv, ok, s.model)
+			}
+		}
+		return
+	}
 	for _, v := range s.model {
 		if gv, nn, ok := s.l.Find(v); !ok || !nn || gv != v {
 			c.Fail(n+"Find/present-value", "Find(%d) = (node %t value %d, %t) in %v", v, nn, gv, ok, s.model)
@@ -322,6 +385,9 @@ func seqDiff(got, want []int) string {
 }
 
 func (s *listSys) Key() string {
+	if s.dups {
+		return seqmc.Dump(s.l.Impl()) + "|" + fmt.Sprint(s.model)
+	}
 	ren := map[int64]string{0: "z"}
 	f := func(v int64) string {
 		if r, ok := ren[v]; ok {
